@@ -26,6 +26,11 @@ fn main() {
         let ok = probe::run();
         std::process::exit(if ok { 0 } else { 1 });
     }
+    if args[1] == "c05-child" {
+        std::panic::set_hook(Box::new(|_| {}));
+        props::c05::child(args[2].parse().unwrap_or(1), &args[3], args[4].parse().unwrap_or(0));
+        return;
+    }
     if args[1] == "c12-child" {
         std::panic::set_hook(Box::new(|_| {}));
         props::c12::child(args[2].parse().unwrap_or(1), args[3].parse().unwrap_or(1));
@@ -61,6 +66,7 @@ fn main() {
         "C02" => props::c02::run(&mut rep, &tier, seed),
         "C03" => props::c03::run(&mut rep, &tier, seed),
         "C04" => props::c04::run(&mut rep, &tier, seed),
+        "C05" => props::c05::run(&mut rep, &tier, seed),
         "C06" => props::c06::run(&mut rep, &tier, seed),
         "C07" => props::c07::run(&mut rep, &tier, seed),
         "C08" => props::c08::run(&mut rep, &tier, seed),
